@@ -231,9 +231,17 @@ def direct_target(ctx, rng, ncfg, nev):
         if done >= ncfg:
             break
         cfg = target_cfg(rng, ci)
-        g = RegionGeomToO(cfg)
         N = int(nev)
-        g.throw(N)
+        # every third configuration: a long observation (30 d, many day / night cycles between
+        # neighbouring kept instants) sampled at instants given in *shuffled* order (throw accepts any
+        # array of fractions): the dark-sky condition is a property of each event's own time
+        shuffled = ci % 2 == 1
+        if shuffled:
+            cfg.simulation.target.source_obst = 30 * 86400.0
+            cfg.detector.sun_moon.sun_moon_cuts = True
+        g = RegionGeomToO(cfg)
+        fr0 = rng.permutation(N) / N if shuffled else None
+        g.throw(fr0.copy() if shuffled else N)
         L = np.array(g.pathLens())
         nk = L.size
         if nk == 0:
@@ -293,7 +301,7 @@ def direct_target(ctx, rng, ncfg, nev):
         kept_[np.flatnonzero(hm_)[np.asarray(g.volume_mask, bool)]] = True
         ki, di = np.flatnonzero(kept_), np.flatnonzero(~kept_)
         for sel in ([int(ki[0])], ([int(x) for x in di[:: max(1, di.size // 4)][:4]] + [int(ki[-1])]) if di.size else None):
-            if sel is None:
+            if sel is None or shuffled:
                 continue
             g1 = RegionGeomToO(cfg)
             g1.throw(np.asarray(sel, dtype=np.float64) / N)
@@ -332,7 +340,7 @@ def direct_target(ctx, rng, ncfg, nev):
                 ctx.count("rethrow", nk)
                 if not (close(o2[0], r2[0], r2[3]) and int(o2[2]) == r2[2]):
                     ctx.violation("history", f"Target [Optical]: after a second throw on the same object (instants reversed) mcintegral returns (integral {o2[0]!r}, passing {o2[2]}); independent evaluation with the dark-sky mask of the *current* instants gives ({r2[0]!r}, {r2[2]})", wit)
-            g.throw(N)
+            g.throw(fr0.copy() if shuffled else N)
         # threshold ladder + history
         base = g.mcintegral(trig, cosch, pexit, thr, 1.0, 1.0, lenDec=lenDec, method="Radio")
         prev = None
